@@ -5,7 +5,7 @@ CONFIG = {
     "lean": ["VProps.C14"],
     "sources": ["VProps/C14.lean", "VModel/FedCheck.lean", "VModel/FedCheckSpec.lean", "VModel/FedCheckInst.lean",
                 "VProofs/FedCheck.lean", "VProofs/FedCheckLog.lean", "VProofs/FedCheckChain.lean"],
-    "theorems": ["V.C14.state_response_fails_iff", "V.C14.state_response_exact", "V.C14.state_response_sound", "V.C14.send_join_accept_iff", "V.C14.retry_diverges", "V.C14.at_state_iff", "V.C14.auth_chain_iff", "V.C14.load_classification", "V.C14.collect_mem", "V.C14.collect_no_panic", "V.C14.padd_idem", "V.C14.authOracles_addIdem", "V.C14.tableProvider_provOK", "V.FedCheck.retryAE_eq_stepC", "V.FedCheck.checkAllowed_contract", "V.FedCheck.verifyEventAuthChain_log", "V.FedCheck.chainStep_post"],
+    "theorems": ["V.C14.state_response_fails_iff", "V.C14.state_response_exact", "V.C14.state_response_sound", "V.C14.send_join_accept_iff", "V.C14.retry_terminates", "V.C14.checkAllowed_terminates", "V.C14.at_state_iff", "V.C14.auth_chain_iff", "V.C14.load_classification", "V.C14.collect_mem", "V.C14.collect_no_panic", "V.C14.padd_idem", "V.C14.authOracles_addIdem", "V.C14.tableProvider_provOK", "V.FedCheck.retryAE_eq_stepC", "V.FedCheck.checkAllowed_contract", "V.FedCheck.verifyEventAuthChain_log", "V.FedCheck.chainStep_post"],
     "rule": "fedcheck: /state and /send_join responses, auth chains, state-at-event checks, LoadAndVerify inputs and backfill transactions built "
             "from generated rooms (create, power levels, join rules, 3-6 members, re-joins, topic changes, messages; events carry proper auth_events "
             "chosen as StateNeededForAuth would, prev_events chains, valid content hashes and are read back through NewEventFromUntrustedJSON) for "
@@ -16,7 +16,7 @@ CONFIG = {
             "extra one, a non-state event, mixtures} x StateProvider behaviours {true state, an auth event missing from the IDs (slow path), empty, "
             "state that refuses the event, non-state event in the state, ID lookup error, state lookup error} x allowValidation. Compared: returned ID "
             "lists (in order for state / send_join, sorted for load / backfill), error class, []EventLoadResult classes, sorted provider call log, "
-            "divergence of the retry loop (scripted provider gives up after 400 calls; the model runs out of fuel). spec stream: VModel.FedCheckSpec "
+            "termination (a scripted provider called more than 400 times is reported as `panic:nontermination`). spec stream: VModel.FedCheckSpec "
             "(filters by `good`, accept-iff, chain closure, first-failing-check classes) wherever the provider script abides by the contract; "
             "`unspecified` otherwise. non-trivial = an op whose outcome is not a plain malformed-response error",
     "nontrivial": lambda op, impl: impl != "err:malformed",
@@ -28,7 +28,7 @@ CONFIG = {
     "assumptions": [
         "the context is never cancelled",
         "the EventProvider is stateless (answers as a function of the requested IDs)",
-        "theorems about CheckStateResponse / CheckSendJoinResponse / VerifyEventAuthChain assume the provider contract ProvOK (single-ID requests are answered with an error, nothing, or exactly the requested event); outside it the retry loop of checkAllowedByAuthEvents need not terminate (theorem retry_diverges, confirmed on the code: outcome `diverge`)",
+        "the exactness theorems about CheckStateResponse / CheckSendJoinResponse / VerifyEventAuthChain assume the provider contract ProvOK (single-ID requests are answered with an error, nothing, or exactly the requested event); termination of checkAllowedByAuthEvents needs no contract (retry_terminates, checkAllowed_terminates; fixed finding 778c3d3). Ops whose provider answers with OTHER events stay in the stream as regression guards: the scripted provider gives up after 400 calls and the harness reports `panic:nontermination`, always a concrete violation",
         "auth_chain_iff is stated for runs that finish within the model's fuel (a bound on the loop's iterations is not proved)",
         "RequestBackfill deliberately passes on events whose only failure is the signature check (collect_mem); C14's statement does not cover it",
     ],
